@@ -104,6 +104,8 @@ def gen_event(rng, noise=False):
               ('member', rng.choice(['Hello', 'GetAll']), None), ('mask', rng.choice(['send', 'receive']), None),
               ('name', rng.choice(['org.freedesktop.DBus', ':1.42', 'org.a.b']), None), ('pid', pid, 'bare'),
               ('label', prof, None), ('peer_pid', str(rng.randint(2, 9999)), 'bare'), ('peer_label', rng.choice(PROFILES), None)]
+        if rng.random() < 0.3:
+            f.pop()        # dbus-daemon writes no peer_label for some messages: the record then ends with peer_pid=N
     else:
         f += [('operation', 'mount', None), ('class', 'mount', None), ('info', 'failed mntpnt match', None), ('error', '-13', 'bare'),
               ('profile', prof, None), ('name', rng.choice(['/mnt/', '/run/x/']), None), ('pid', pid, 'bare'), ('comm', comm, None),
@@ -128,7 +130,10 @@ def gen_log(rng, n_events, fmt=None, long_line=None):
         r = rng.random()
         if r < 0.15 and pool:
             e = rng.choice(pool)          # repeat: identical up to timestamp / pid
-            e = Ev([(k, (str(rng.randint(2, 99999)) if k in ('pid', 'peer_pid') and rng.random() < 0.7 else v), enc) for k, v, enc in e.fields])
+            # (a pid that ends the record is not stripped by the clean-up pattern, which wants a blank after it: kept as it is)
+            last = len(e.fields) - 1
+            e = Ev([(k, (str(rng.randint(2, 99999)) if k in ('pid', 'peer_pid') and j != last and rng.random() < 0.7 else v), enc)
+                    for j, (k, v, enc) in enumerate(e.fields)])
         elif r < 0.22 and pool:
             # near duplicate: the same access with one field changed (other target, peer, signal, name, mask)
             base = rng.choice(pool)
